@@ -17,6 +17,7 @@ import (
 	"os"
 	"path/filepath"
 	"strconv"
+	"strings"
 	"sync"
 	"time"
 
@@ -37,6 +38,8 @@ type image struct {
 	SnapSeen int  // number of snapshots completed (snap.done) before this point
 	RwN      int  // number of rewrites begun so far (the one in progress included)
 	RwStage  string
+	InSave   bool
+	SaveAt   int
 }
 
 func copyFile(src, dst string) error {
@@ -119,8 +122,11 @@ type recorder struct {
 	// it executes one write from "another client" inside the rewrite window.
 	interleaveAt string
 	interleave   func()
-	rwTrunc      int    // acknowledged commands when the log was truncated by the rewrite in progress
-	nested       bool   // a client command is running inside the rewrite window
+	rwTrunc      int  // acknowledged commands when the log was truncated by the rewrite in progress
+	nested       bool // a client command is running inside the rewrite window
+	inSave       bool
+	saveBegin    int
+	saveDone     chan string
 	rwStage      string // last file operation of the rewrite in progress
 }
 
@@ -160,6 +166,20 @@ func (rc *recorder) handle(name string, args ...any) {
 		rc.rwStage = name
 	case "snap.done":
 		rc.snaps++
+	case "snap.copied":
+		rc.inSave = true
+	case "snap.finished":
+		rc.inSave = false
+		msg := ""
+		if len(args) > 0 {
+			msg, _ = args[0].(string)
+		}
+		if rc.saveDone != nil {
+			select {
+			case rc.saveDone <- msg:
+			default:
+			}
+		}
 	}
 	fop := map[string]any{"ev": "fop", "op": name, "k": rc.seq}
 	if len(args) > 0 {
@@ -177,7 +197,7 @@ func (rc *recorder) handle(name string, args ...any) {
 			rc.images = append(rc.images, image{
 				Label: name, Seq: rc.seq, Acked: rc.acked, Exec: rc.exec, Dir: dst,
 				LogSize: fileSize(filepath.Join(dst, "aof", "log.aof")), Synced: rc.synced,
-				NowMs: rc.ep.Rel(rc.clock.Now()), InRw: rc.inRw, RwBegin: rc.rwBegin, SnapSeen: rc.snaps, RwN: rc.rwN, RwStage: rc.rwStage,
+				NowMs: rc.ep.Rel(rc.clock.Now()), InRw: rc.inRw, RwBegin: rc.rwBegin, SnapSeen: rc.snaps, RwN: rc.rwN, RwStage: rc.rwStage, InSave: rc.inSave, SaveAt: rc.saveBegin,
 			})
 		}
 	}
@@ -290,6 +310,11 @@ func runPersistWorkload(tr *Trace, w int, o persistOpts, r *rand.Rand, work stri
 		return err
 	}
 	rc := &recorder{dir: live, imgRoot: filepath.Join(wdir, "images"), clock: srv.Clock, ep: srv.Ep, rwBegin: -1}
+	if o.mode == "snap" {
+		rc.wanted = func(name string) bool {
+			return strings.HasPrefix(name, "snap.") || name == "end.running" || name == "cmd.handled"
+		}
+	}
 	sugardb.VerifSetHandler(rc.handle)
 	defer sugardb.VerifSetHandler(nil)
 
@@ -346,6 +371,34 @@ func runPersistWorkload(tr *Trace, w int, o persistOpts, r *rand.Rand, work stri
 				return err
 			}
 			srv.EmbDB = s.Db
+			continue
+		case s.Special == "save":
+			rc.mu.Lock()
+			rc.saveBegin = ncmd
+			rc.saveDone = make(chan string, 1)
+			ch := rc.saveDone
+			rc.mu.Unlock()
+			rep := srv.Exec([]Tok{S("SAVE")})
+			ev := map[string]any{"ev": "save", "run": w, "now": now, "acked": ncmd, "r": rep.JSON()}
+			if rep.T == "simple" {
+				select {
+				case msg := <-ch:
+					ev["done"] = msg == ""
+					ev["msg"] = msg
+				case <-time.After(StepTimeout):
+					ev["err"] = "hang: the snapshot goroutine did not finish"
+				}
+			} else {
+				ev["done"] = false
+				ev["msg"] = "SAVE replied " + rep.T
+			}
+			ls := srv.Exec([]Tok{S("LASTSAVE")})
+			ev["lastsave"] = int64(0)
+			if ls.T == "int" {
+				ev["lastsave"] = ls.N - srv.Ep.Base.UnixMilli()
+			}
+			tr.Emit(ev)
+			tot["saves"]++
 			continue
 		case s.Special == "rewrite":
 			var rerr error
@@ -420,8 +473,13 @@ func runPersistWorkload(tr *Trace, w int, o persistOpts, r *rand.Rand, work stri
 			return nil
 		}
 		seen[key] = true
-		b, bdir, err := restoreFrom(dir, wdir, im.NowMs, true, false, o.sync)
-		ev := map[string]any{"ev": "image", "run": w, "at": im.Label, "k": im.Seq, "acked": im.Acked, "exec": im.Exec,
+		snapMode := o.mode == "snap"
+		b, bdir, err := restoreFrom(dir, wdir, im.NowMs, !snapMode, snapMode, o.sync)
+		evName := "image"
+		if snapMode {
+			evName = "simage"
+		}
+		ev := map[string]any{"ev": evName, "run": w, "nsave": im.SnapSeen, "insave": im.InSave, "saveat": im.SaveAt, "at": im.Label, "k": im.Seq, "acked": im.Acked, "exec": im.Exec,
 			"cut": cut, "powerloss": powerloss, "now": im.NowMs, "sync": o.sync, "logsize": im.LogSize, "synced": im.Synced,
 			"inrw": im.InRw, "rwbegin": im.RwBegin, "rwn": im.RwN, "rwstage": im.RwStage, "recs": countRecords(filepath.Join(dir, "aof", "log.aof")),
 			"pre": preambleClass(filepath.Join(dir, "aof", "preamble.bin"))}
@@ -439,13 +497,19 @@ func runPersistWorkload(tr *Trace, w int, o persistOpts, r *rand.Rand, work stri
 			return nil
 		}
 		ev["st"] = projState(b.Ep, st)
+		if snapMode {
+			ev["lastsave"] = int64(0)
+			if ls := b.Exec([]Tok{S("LASTSAVE")}); ls.T == "int" {
+				ev["lastsave"] = ls.N - b.Ep.Base.UnixMilli()
+			}
+		}
 		tr.Emit(ev)
 		tot["images"]++
 		if len(*samples) < 3 {
 			*samples = append(*samples, map[string]any{"at": im.Label, "acked": im.Acked, "exec": im.Exec, "cut": cut, "powerloss": powerloss})
 		}
 		// durable again: keep writing on the recovered server, stop it, restore once more
-		if o.again > 0 && r.Intn(o.again) == 0 {
+		if !snapMode && o.again > 0 && r.Intn(o.again) == 0 {
 			var cmds []any
 			for i := 0; i < 2; i++ {
 				c := genPersistWrite(r, o, b.Now())
@@ -479,7 +543,7 @@ func runPersistWorkload(tr *Trace, w int, o persistOpts, r *rand.Rand, work stri
 			return err
 		}
 		// power loss: the unsynced suffix of the log may be lost, entirely or in part
-		if o.cuts == "none" || im.LogSize <= im.Synced {
+		if o.mode == "snap" || o.cuts == "none" || im.LogSize <= im.Synced {
 			continue
 		}
 		if o.cuts == "last" && im.Label != "aof.log.write" && im.Label != "aof.log.select" && im.Label != "end.running" {
